@@ -3,7 +3,7 @@
    zero-straddling route (naive bound, Balch product, imposition) for operands of ANY sign. *)
 From Coq Require Import Reals Lra List Arith Lia Bool Permutation Sorted.
 From PUN Require Import Base.Num Base.Sort Model.Interval Model.Pbox Model.PboxArith
-  Proofs.ListR Proofs.Frechet Proofs.PboxWF Proofs.WFExpr Proofs.Compose.
+  Proofs.ListR Proofs.Frechet Proofs.PboxWF Proofs.WFExpr Proofs.Compose Proofs.ComposeNaive.
 Import ListNotations.
 Open Scope R_scope.
 
@@ -77,3 +77,83 @@ Qed.
 Lemma bounds_ext (L Rr u u' : list R) : u = u' -> bounds L Rr u -> bounds L Rr u'.
 Proof. intros ->; auto. Qed.
 End Ops.
+
+(* ---------- the operations of the model ---------- *)
+Section Ops2.
+Variable steps : nat.
+Variables plo phi : R.
+Notation mkg := (mk_staircase_gen RN steps plo phi).
+Notation S_ := (snd_ steps).
+
+Lemma S_len p u : S_ p u -> length (fst p) = steps /\ length (snd p) = steps /\ length u = steps.
+Proof. intros ([Hl Hr _ _ _] & (Hu & _ & _)). repeat split; auto. lia. Qed.
+
+Lemma pnum_sound_incr (f : R -> R -> R) c p u r : (forall a b, a <= b -> f a c <= f b c) ->
+  S_ p u -> pnum RN steps plo phi f p c = Ok r -> S_ r (map (fun a => f a c) u).
+Proof.
+  intros Hf HS E. destruct (S_len p u HS) as (Hl & Hr & Hu). destruct HS as (_ & HB). unfold pnum, mk_staircase_lists in E.
+  eapply mk_sound; [| |left|exact E]; change (nsort RN) with Rsort; rewrite ?Rsort_length, ?map_length; auto.
+  apply bounds_sort. apply (bounds_map_incr (fun a => f a c)); assumption.
+Qed.
+Lemma pnum_sound_anti (f : R -> R -> R) c p u r : (forall a b, a <= b -> f b c <= f a c) ->
+  S_ p u -> pnum RN steps plo phi f p c = Ok r -> S_ r (map (fun a => f a c) u).
+Proof.
+  intros Hf HS E. destruct (S_len p u HS) as (Hl & Hr & Hu). destruct HS as (_ & HB). unfold pnum, mk_staircase_lists in E.
+  eapply mk_sound; [| |right|exact E]; change (nsort RN) with Rsort; rewrite ?Rsort_length, ?map_length; auto.
+  pose proof (bounds_sort _ _ _ (bounds_map_anti (fun a => f a c) _ _ _ Hf HB)) as B.
+  rewrite (Rsort_of_perm (rev (map (fun a => f a c) (snd p))) (map (fun a => f a c) (snd p))) in B by (apply Permutation_sym, Permutation_rev).
+  rewrite (Rsort_of_perm (rev (map (fun a => f a c) (fst p))) (map (fun a => f a c) (fst p))) in B by (apply Permutation_sym, Permutation_rev).
+  exact B.
+Qed.
+Lemma pneg_sound p u r : S_ p u -> pneg RN steps plo phi p = Ok r -> S_ r (map Ropp u).
+Proof.
+  intros HS E. destruct (S_len p u HS) as (Hl & Hr & Hu). destruct HS as (_ & HB). unfold pneg, mk_staircase_lists in E.
+  eapply mk_sound; [| |left|exact E]; change (nsort RN) with Rsort; rewrite ?Rsort_length, ?map_length, ?rev_length; auto.
+  apply bounds_sort. change (nopp RN) with Ropp. rewrite !map_rev. apply (bounds_map_anti Ropp); [intros; lra|exact HB].
+Qed.
+Lemma frechet_op_lengths (op : R -> R -> R) XL XR YL YR :
+  length (fst (frechet_op RN op XL XR YL YR)) = length XL /\ length (snd (frechet_op RN op XL XR YL YR)) = length XL.
+Proof. unfold frechet_op; cbn [fst snd]. change (nsort RN) with Rsort. rewrite !Rsort_length, !map_length, !seq_length. auto. Qed.
+Lemma classic_sound (op : R -> R -> R) (D : R -> Prop) p q u v r :
+  (forall a a', D a -> a <= a' -> D a') ->
+  (forall a a' b b', D a -> D b -> a <= a' -> b <= b' -> op a b <= op a' b') ->
+  (forall j, (j < steps)%nat -> D (nth j (fst p) 0)) -> (forall j, (j < steps)%nat -> D (nth j (fst q) 0)) ->
+  S_ p u -> S_ q v -> m_classic_frechet_pbox RN steps plo phi p q op = Ok r -> S_ r (map2 op u v).
+Proof.
+  intros Dup Hm Dp Dq Sp Sq E. destruct (S_len p u Sp) as (Hl & Hr & Hu). destruct (S_len q v Sq) as (Hl' & Hr' & Hv).
+  destruct Sp as (_ & Bp). destruct Sq as (_ & Bq).
+  unfold m_classic_frechet_pbox in E. unfold pbox in *. cbn [T RN] in *. revert E. match goal with |- context [frechet_op ?a ?b ?c ?d ?e ?f] => destruct (frechet_op a b c d e f) as [l r'] eqn:F end. cbv beta iota.
+  match goal with |- context [mk_staircase ?a ?b ?c ?d ?e ?f] => destruct (mk_staircase a b c d e f) as [x| |] eqn:M end; cbn [rbind]; try discriminate. intros E. injection E as <-.
+  pose proof (frechet_op_lengths op (fst p) (snd p) (fst q) (snd q)) as (L1 & L2). rewrite F in L1, L2. cbn [fst snd] in L1, L2.
+  unfold mk_staircase in M. eapply mk_sound; [transitivity (length (fst p)); [exact L1|exact Hl]|transitivity (length (fst p)); [exact L2|exact Hl]|left|exact M].
+  pose proof (frechet_bounds op D (fst p) (snd p) (fst q) (snd q) u v Dup Hm ltac:(lia)) as FB. rewrite F in FB. cbn [fst snd] in FB.
+  apply FB; [intros j Hj; apply Dp; lia|intros j Hj; apply Dq; lia|exact Bp|exact Bq].
+Qed.
+Lemma naive_sound p q u v r : S_ p u -> S_ q v ->
+  m_vectorised_naive_frechet_pbox RN steps plo phi p q (nmul RN) = Ok r -> S_ r (map2 Rmult u v).
+Proof.
+  intros Sp Sq E. destruct (S_len p u Sp) as (Hl & Hr & Hu). destruct (S_len q v Sq) as (Hl' & Hr' & Hv).
+  destruct Sp as (_ & Bp). destruct Sq as (_ & Bq).
+  unfold m_vectorised_naive_frechet_pbox in E. change (nmul RN) with Rmult in E. unfold pbox in *. cbn [T RN] in *.
+  pose proof (naive_bounds (fst p) (snd p) (fst q) (snd q) steps Hl Hr Hl' Hr' u v Bp Bq) as NB.
+  revert E NB. match goal with |- context [naive_frechet_op ?a ?b ?c ?d ?e ?f] => destruct (naive_frechet_op a b c d e f) as [l r'] eqn:F end. cbv beta iota. cbn [fst snd]. intros E NB. revert E.
+  match goal with |- context [mk_staircase ?a ?b ?c ?d ?e ?f] => destruct (mk_staircase a b c d e f) as [x| |] eqn:M end; cbn [rbind]; try discriminate. intros E. injection E as <-.
+  destruct NB as (N1 & N2 & N3). rewrite map2_length, Hu, Hv, Nat.min_id in N1.
+  unfold mk_staircase in M. eapply mk_sound; [symmetry; exact N1|transitivity (length l); [exact N2|symmetry; exact N1]|left|exact M].
+  split; [rewrite map2_length, Hu, Hv, Nat.min_id; exact N1|]. split; [exact N2|exact N3].
+Qed.
+Lemma map2_len_n {A B C} (f : A -> B -> C) a b n : length a = n -> length b = n -> length (map2 f a b) = n.
+Proof. intros Ha Hb. rewrite map2_length, Ha, Hb. apply Nat.min_id. Qed.
+Lemma pimp_sound p q w r : S_ p w -> S_ q w -> pimp RN steps plo phi p q = Ok r -> S_ r w.
+Proof.
+  intros Sp Sq E. destruct (S_len p w Sp) as (Hl & Hr & Hu). destruct (S_len q w Sq) as (Hl' & Hr' & _).
+  destruct Sp as (_ & (_ & _ & Bp)). destruct Sq as (_ & (_ & _ & Bq)).
+  unfold pimp in E. cbv zeta in E. destruct (existsb _ _); [discriminate|]. unfold mk_staircase_lists in E.
+  cbn [T RN] in *.
+  apply (mk_sound steps plo phi true (map2 (@nmax RN) (fst p) (fst q)) (map2 (@nmin RN) (snd p) (snd q)) w r); [apply map2_len_n; assumption|apply map2_len_n; assumption|left|exact E].
+  split; [rewrite (map2_len_n _ _ _ steps Hl Hl'); exact Hu|]. split; [rewrite (map2_len_n _ _ _ steps Hl Hl'), (map2_len_n _ _ _ steps Hr Hr'); reflexivity|].
+  intros s Hs Hss i Hi. rewrite (map2_len_n _ _ _ steps Hl Hl') in Hi.
+  specialize (Bp s Hs Hss i ltac:(lia)). specialize (Bq s Hs Hss i ltac:(lia)).
+  rewrite !(map2_nth _ _ _ 0 0 0) by lia. rewrite nmax_R, nmin_R. unfold Rmax, Rmin. repeat destruct (Rle_dec _ _); cbn [T RN] in *; lra.
+Qed.
+End Ops2.
